@@ -566,6 +566,49 @@ func (c *FnCtx) globalLV(g *ssa.Global) Value {
 
 func (fr *frame) set(v ssa.Value, val Value) { fr.regs[v] = val }
 
+// globalConstant: a package-level variable that is assigned exactly once, in a package initialiser,
+// is a constant for every function under verification: its value is the constant initialiser, or an
+// opaque constant of its type (the same term in every state).
+func (c *FnCtx) globalConstant(st *State, g *ssa.Global) (Value, bool) {
+	if c.e.GlobalMulti[g] {
+		return nil, false
+	}
+	et := g.Type().(*types.Pointer).Elem()
+	switch et.Underlying().(type) {
+	case *types.Struct, *types.Array:
+		return nil, false
+	}
+	s, ok := c.sortOf(et)
+	if !ok {
+		return nil, false
+	}
+	if init, ok := c.e.GlobalInit[g]; ok {
+		if k, ok := init.(*ssa.Const); ok {
+			return c.constValue(k), true
+		}
+	}
+	t := c.f.Const("gconst$"+sanitize(g.Pkg.Pkg.Path()+"."+g.Name()), s)
+	c.assumeWFGlobal(t, et)
+	return t, true
+}
+
+// assumeWFGlobal records the type invariants of a global constant as global facts.
+func (c *FnCtx) assumeWFGlobal(t *Term, typ types.Type) {
+	tmp := &State{R: c.f.True(), heap: map[string]*Term{}, alpha: c.alpha0}
+	c.assumeWF(tmp, t, typ)
+	if tmp.R.op != "true" {
+		dup := false
+		for _, r := range c.f.ranges {
+			if r == tmp.R {
+				dup = true
+			}
+		}
+		if !dup {
+			c.f.ranges = append(c.f.ranges, tmp.R)
+		}
+	}
+}
+
 func (fr *frame) instr(ins ssa.Instruction, st *State) {
 	c := fr.c
 	f := c.f
@@ -715,6 +758,11 @@ func (fr *frame) unop(x *ssa.UnOp, st *State, pos string) Value {
 	f := c.f
 	switch x.Op {
 	case token.MUL: // load
+		if g, ok := x.X.(*ssa.Global); ok {
+			if v, ok := c.globalConstant(st, g); ok {
+				return v
+			}
+		}
 		addr := fr.operand(x.X, st)
 		switch a := addr.(type) {
 		case *LV:
@@ -761,8 +809,13 @@ func (fr *frame) convert(x *ssa.Convert, st *State, pos string) Value {
 	from, to := x.X.Type().Underlying(), x.Type().Underlying()
 	v := fr.operand(x.X, st)
 	if bits, signed, ok := intInfo(x.Type()); ok {
-		if _, _, ok2 := intInfo(x.X.Type()); ok2 {
+		if _, _, ok2 := intInfo(x.X.Type()); ok2 || isMathint(x.X.Type()) {
 			return f.Wrap(v.(*Term), bits, signed)
+		}
+	}
+	if isMathint(x.Type()) {
+		if t, ok := v.(*Term); ok && t.sort == SInt {
+			return t
 		}
 	}
 	if tb, ok := to.(*types.Basic); ok && tb.Info()&types.IsString != 0 {
@@ -1242,6 +1295,21 @@ func (c *FnCtx) binop(st *State, op token.Token, av, bv Value, at, bt, rt types.
 		return f.Gt(a, b)
 	case token.GEQ:
 		return f.Ge(a, b)
+	}
+	if isMathint(rt) {
+		switch op {
+		case token.ADD:
+			return f.Add(a, b)
+		case token.SUB:
+			return f.Sub(a, b)
+		case token.MUL:
+			return f.Mul(a, b)
+		case token.REM:
+			// mathematical modulus (result in [0,|b|))
+			return f.Mod(a, b)
+		case token.QUO:
+			return f.Div(a, b)
+		}
 	}
 	bits, signed, ok := intInfo(rt)
 	if !ok {
